@@ -24,6 +24,9 @@ pub struct DiskRowset {
     column_infos: Arc<[ColumnCatalog]>,
     columns: Vec<Column>,
     rowset_id: u32,
+    /// Why the RowSet could not be opened (a damaged index or data file). Such a RowSet stays in
+    /// its table, so that the other tables remain usable, and every read of it reports the error.
+    broken: Option<String>,
 }
 
 impl DiskRowset {
@@ -92,7 +95,29 @@ impl DiskRowset {
             column_infos,
             columns,
             rowset_id,
+            broken: None,
         })
+    }
+
+    /// A placeholder for a RowSet that could not be opened: reading it fails with `error`.
+    pub fn broken(column_infos: Arc<[ColumnCatalog]>, rowset_id: u32, error: String) -> Self {
+        Self {
+            column_infos,
+            columns: vec![],
+            rowset_id,
+            broken: Some(error),
+        }
+    }
+
+    /// Returns the error if this RowSet could not be opened.
+    pub fn check_readable(&self) -> StorageResult<()> {
+        match &self.broken {
+            Some(error) => Err(super::super::TracedStorageError::decode(format!(
+                "rowset {} can not be read: {error}",
+                self.rowset_id
+            ))),
+            None => Ok(()),
+        }
     }
 
     pub fn column(&self, storage_column_id: usize) -> Column {
@@ -118,6 +143,7 @@ impl DiskRowset {
         seek_pos: ColumnSeekPosition,
         filter: Option<KeyRange>,
     ) -> StorageResult<RowSetIterator> {
+        self.check_readable()?;
         RowSetIterator::new(self.clone(), column_refs, dvs, seek_pos, filter).await
     }
 
@@ -142,6 +168,10 @@ impl DiskRowset {
         let Some(begin_key) = begin_key else {
             return ColumnSeekPosition::RowId(0);
         };
+        if self.broken.is_some() {
+            // (`iter` reports the error)
+            return ColumnSeekPosition::RowId(0);
+        }
 
         // for now, we only use the first column to get the start row id
         let column = self.column(0);
